@@ -1,7 +1,10 @@
 package main
 
 import (
+	"bytes"
 	"fmt"
+	"net/http"
+	"net/http/httptest"
 	"os"
 	"runtime"
 	"strconv"
@@ -140,6 +143,7 @@ func heapHistory(hc heapCase, rotations int, frameSize int, seed int64) (pts [3]
 
 func heapProbe(rep *ev.Reporter, tier string, seed int64, stats oracle.Stats) {
 	limitProbe(rep, tier, seed, stats)
+	retentionProbe(rep, tier, seed, stats)
 	rot, frame := 400, 12<<10
 	if tier == "thorough" {
 		rot = 3000
@@ -311,5 +315,171 @@ func limitProbe(rep *ev.Reporter, tier string, seed int64, stats oracle.Stats) {
 				rep.Report("C18/limit-boundary/overshoot/"+lc.String(), fmt.Sprintf("%s: samples of %d bytes, SegmentMaxSize %d -> first failing write %d, SegmentMaxSize %d (one byte short of %d samples) -> first failing write %d: a sample that does not fit was accepted", lc, s, k*s, w[1], k*s+s-1, k+1, w[2]), ref)
 			}
 		}
+	}
+}
+
+// ---- retention across Writes that fail inside a rotation
+//
+// "for arbitrarily long write histories": a history in which some Writes return an error and the
+// application goes on writing is a history too. An AV1 stream alternates between a sequence header
+// the init-file generator accepts and one it refuses ("initial_display_delay_present_flag", legal
+// AV1): the rotation that has to regenerate the init file fails, the next parameter change repairs
+// it. Listed segments, files in Directory and registered URL paths are sampled after every Write and
+// compared with the same history without the refused header (the reference run of the same code):
+// a failed rotation may leave at most one entry more than the reference ever holds, and nothing may
+// accumulate with the number of failures.
+type retainCase struct {
+	variant gohlslib.MuxerVariant
+	disk    bool
+}
+
+func (rc retainCase) String() string {
+	s := map[gohlslib.MuxerVariant]string{gohlslib.MuxerVariantFMP4: "fmp4", gohlslib.MuxerVariantLowLatency: "lowLatency"}[rc.variant]
+	if rc.disk {
+		s += "+disk"
+	}
+	return s
+}
+
+type retainObs struct{ listed, files, paths, failures int }
+
+func retentionHistory(rc retainCase, faulty bool, cycles int, seed int64) (max retainObs, final retainObs, err error) {
+	goodA := []byte{10, 11, 0, 0, 0, 66, 167, 191, 230, 46, 223, 200, 66}
+	goodB := media.AV1SeqHdrVectors[int(seed)%len(media.AV1SeqHdrVectors)]
+	if bytes.Equal(goodA, goodB) {
+		goodB = media.AV1SeqHdrVectors[(int(seed)+1)%len(media.AV1SeqHdrVectors)]
+	}
+	// OBU_SEQUENCE_HEADER, has_size, 4 bytes: seq_profile 0, initial_display_delay_present_flag 1
+	refused := []byte{0x0a, 0x04, 0x02, 0x00, 0x00, 0x00}
+	frame := []byte{0x32, 0x02, 0x10, 0x00} // OBU_FRAME, has_size, 2 bytes
+	tr := &gohlslib.Track{Codec: &codecs.AV1{SequenceHeader: goodA}, ClockRate: 90000}
+	segCount := 3 + int(seed%3)
+	if rc.variant == gohlslib.MuxerVariantLowLatency {
+		segCount = 7
+	}
+	m := &gohlslib.Muxer{
+		Variant: rc.variant, SegmentCount: segCount, SegmentMinDuration: time.Second, PartMinDuration: 250 * time.Millisecond,
+		Tracks: []*gohlslib.Track{tr}, OnEncodeError: func(error) {},
+	}
+	var dir string
+	if rc.disk {
+		dir, err = os.MkdirTemp("", "c18ret")
+		if err != nil {
+			return
+		}
+		defer os.RemoveAll(dir)
+		m.Directory = dir
+	}
+	if err = m.Start(); err != nil {
+		return
+	}
+	defer m.Close()
+	ntp := time.Date(2024, 1, 1, 0, 0, 0, 0, time.UTC)
+	n := 0
+	sample := func() retainObs {
+		var o retainObs
+		rec := httptest.NewRecorder()
+		m.Handle(rec, httptest.NewRequest(http.MethodGet, "/video1_stream.m3u8", nil))
+		for _, line := range strings.Split(rec.Body.String(), "\n") {
+			if line != "" && !strings.HasPrefix(line, "#") {
+				o.listed++
+			}
+		}
+		if dir != "" {
+			es, _ := os.ReadDir(dir)
+			o.files = len(es)
+		}
+		o.paths = m.VerifPathCount()
+		return o
+	}
+	write := func(sh []byte, key bool) {
+		var tu [][]byte
+		if key {
+			tu = [][]byte{sh, frame}
+		} else {
+			tu = [][]byte{frame}
+		}
+		e := m.WriteAV1(tr, ntp.Add(time.Duration(n)*500*time.Millisecond), int64(n)*45000, tu)
+		n++
+		if e != nil {
+			max.failures++
+		}
+		if n > 2*segCount+2 { // (the playlist is served once there is content)
+			o := sample()
+			if o.listed > max.listed {
+				max.listed = o.listed
+			}
+			if o.files > max.files {
+				max.files = o.files
+			}
+			if o.paths > max.paths {
+				max.paths = o.paths
+			}
+			final = o
+		}
+	}
+	gop := func(sh []byte) { // two seconds: a key frame and three more frames
+		write(sh, true)
+		for k := 0; k < 3; k++ {
+			write(sh, false)
+		}
+	}
+	for k := 0; k < segCount+2; k++ {
+		gop(goodA)
+	}
+	for c := 0; c < cycles; c++ {
+		// (the init file is regenerated when the first segment that starts with the new header is
+		// published: the header has to last two GOPs)
+		if faulty {
+			gop(refused)
+			gop(refused)
+		} else {
+			gop(goodB)
+			gop(goodB)
+		}
+		gop(goodA)
+		gop(goodA)
+	}
+	for k := 0; k < 2*segCount+4; k++ {
+		gop(goodA)
+	}
+	return max, final, nil
+}
+
+func retentionProbe(rep *ev.Reporter, tier string, seed int64, stats oracle.Stats) {
+	cycles := 8
+	if tier == "thorough" {
+		cycles = 60
+	}
+	for k, rc := range []retainCase{{gohlslib.MuxerVariantFMP4, false}, {gohlslib.MuxerVariantFMP4, true}, {gohlslib.MuxerVariantLowLatency, false}, {gohlslib.MuxerVariantLowLatency, true}} {
+		ref := caseRef{"C18", seed, -(1000 + k), tier}
+		cm, _, err := retentionHistory(rc, false, cycles, seed)
+		if err != nil {
+			fmt.Printf("HARNESS: retention history %s: %v\n", rc, err)
+			continue
+		}
+		fm, ff, err := retentionHistory(rc, true, cycles, seed)
+		if err != nil {
+			fmt.Printf("HARNESS: retention history %s: %v\n", rc, err)
+			continue
+		}
+		stats["C18.failed_rotation_histories"]++
+		stats["C18.failed_rotations"] += fm.failures
+		fmt.Printf("C18 retention %-16s %d cycles: reference max listed/files/paths %d/%d/%d; with %d failed Writes max %d/%d/%d, at the end %d/%d/%d\n",
+			rc, cycles, cm.listed, cm.files, cm.paths, fm.failures, fm.listed, fm.files, fm.paths, ff.listed, ff.files, ff.paths)
+		if fm.failures == 0 {
+			fmt.Printf("INCONCLUSIVE property=C18 retention history %s: no Write failed, the refused sequence header was accepted\n", rc)
+			continue
+		}
+		chk := func(what string, got, refMax, end int) {
+			if got > refMax+1 {
+				rep.Report("C18/retention-after-failed-write/"+what, fmt.Sprintf("%s: up to %d %s in a history with %d failed rotations, the same history without failures never holds more than %d", rc, got, what, fm.failures, refMax), ref)
+			} else if end > refMax {
+				rep.Report("C18/retention-after-failed-write/"+what+"-at-end", fmt.Sprintf("%s: %d %s still held many clean rotations after the last failure, the history without failures never holds more than %d", rc, end, what, refMax), ref)
+			}
+		}
+		chk("listed segments", fm.listed, cm.listed, ff.listed)
+		chk("files", fm.files, cm.files, ff.files)
+		chk("url paths", fm.paths, cm.paths, ff.paths)
 	}
 }
